@@ -50,6 +50,14 @@ def run(ctx, rep):
     rep.rule('R01.8', 'a result outside the integer range is an error, not a wrapped value: integers are encoded only through the checked constructor or from range-checked values')
     from rules import shared as _shared
     _shared.check_int_encoder_range(ctx, rep, 'R01.8')
+    rep.rule('R01.11', 'a legal program is never refused for where its code lands: the jump placeholder is only written, never read back')
+    _shared.check_placeholder_write_only(ctx, rep, 'R01.11')
+    rep.rule('R01.12', 'the tree the back end translates is the tree the text denotes: operators group as documented (the binding-power table of the parser)')
+    from rules import c07 as _c07
+    _c07.check_binding_table(ctx, rep, 'R01.12', counts=False)
+    rep.rule('R01.13', 'every variable of a function has a slot of its own in the activation: the frame size packed into the function value counts every parameter and local')
+    from rules import c02 as _c02
+    _c02.check_frame_size(ctx, rep, 'R01.13')
     rep.rule('R01.9', 'a type error stays a type error on every path, fast paths included: a value is decoded only as what it is: every as_int / as_bool / as_function is preceded on every path by a test that the object has that tag (the decoders only shift the word: `ja` would read as 1, null as 0)')
     from rules import unsafe_inv as _ui
     _ui.check_immediates(ctx, rep, 'R01.9')
